@@ -8,6 +8,14 @@ CHECKS = {
    technique="explicit-state enumeration of the spec lattice (level-1 cells × flag product), each state run through the real generator; static oracles go/parser + gofmt + go/types",
    text="Bounded-exhaustive model checking of the generator: every cell of the DESIGN §3 feature matrix (schema kind × position × required × nullable × ref/inline, name shapes and colliding name pairs, free-text shapes, status/content shapes, security kinds) × flag combinations is generated with the real goag and every written file is parsed, gofmt-checked and type-checked as one package against the standard library. No sampling; the evidence lists states, files judged and template arms reached.",
    note="go/types over gc export data of the installed standard library stands for 'compiles'; level 1 of the lattice (single cells × flags) — compositions of two cells are only covered where a family enumerates pairs (name pairs, security pairs). Cells containing a known finding are masked for other defects in the same file."),
+ "C13": dict(engine="genrun", ref="§4 C13",
+   technique="exhaustive enumeration of spec-file contents (all byte strings over a 7-letter alphabet up to length 4 / 6, a second alphabet of non-source bytes, every repository spec in 4 physical forms) through the real generator; oracle = go/constant value of SpecFile == input",
+   text="Every spec-file content in the bounded space is embedded by the real generator (public Generate for lengths <= 4 and real documents, the same Generator.SpecFile+WriteToFile pair for lengths 5-6) and the compiled value of the SpecFile constant is compared byte for byte with the input. The served half (GET <base>/<spec name> through compiled packages, middlewares bypassed, repeated requests) is checked on compiled packages when the batch engine is available.",
+   note="content alphabet {backtick, double quote, backslash, LF, CR, $, letter} plus {NUL, 0xFF, BOM, two-byte rune}; longer files are represented by the repository's own specs in as-is / CRLF / no-trailing-newline / one-line-JSON form"),
+ "C19": dict(engine="genrun", ref="§7",
+   technique="explicit-state search over output-directory states with real Generate transitions: every history of length <= 3 literally, plus breadth-first search with state hashing to a fixpoint (thorough); differential directory model",
+   text="States are canonical directory contents, transitions are real generator invocations (library, and the CLI binary once per event to bind the two). Quick runs all 584 histories of length <= 3 over the property's 8-event alphabet from the empty directory and all histories of length <= 2 from directories holding user files / stale goag-named files; thorough runs 12 events to length 3 from all three initial states and a BFS to the fixpoint including a failing invocation. Invariant per transition: owned files equal a fresh run of the last invocation, other files untouched, repeating the invocation is a no-op.",
+   note="the five owned names are defined by the model (README/flags), not read from goag; equal directory contents are assumed to have equal futures (Generate never reads file contents)"),
 }
 NA_REASON = "check not built yet (work in progress; see DESIGN.md §13)"
 def main():
